@@ -335,6 +335,15 @@ class WrapReadOnly(WrapFS[_F], typing.Generic[_F]):
         self.check()
         raise ResourceReadOnly(path)
 
+    def download(self, path, file, chunk_size=None, **options):
+        # type: (Text, BinaryIO, Optional[int], **Any) -> None
+        self.check()
+        if check_writable(options.get("mode", "r")):
+            raise ResourceReadOnly(path)
+        return super(WrapReadOnly, self).download(
+            path, file, chunk_size=chunk_size, **options
+        )
+
     def getmeta(self, namespace="standard"):
         # type: (Text) -> Mapping[Text, object]
         self.check()
